@@ -266,6 +266,7 @@ inductive Op
   | addCurve (name : Name) (t : Option CurveType)
   | addSource (name node : Name) (pat : Option Name)
   | addControl (name : Name) (nodes links : List Name)
+  | updateControl (name : Name) (nodes links : List Name)   -- `rule.update_then_actions(...)`: new required set
   | removeNode (name : Name) (withControl force : Bool)
   | removeLink (name : Name) (withControl force : Bool)
   | removePattern (name : Name)
@@ -400,6 +401,14 @@ def addControl (s : Reg) (name : Name) (nodes links : List Name) : Reg × Out :=
   | some us =>
     if AL.has s.controls name then (s, .error)
     else ({ s with controls := AL.set s.controls name us }, .ok)
+
+/-- `wn.get_control(name).update_then_actions([...])` (harness op): the control keeps its condition (over `nodes`) and gets
+actions on `links`; `KeyError` when the control or one of the elements does not exist -/
+def updateControl (s : Reg) (name : Name) (nodes links : List Name) : Reg × Out :=
+  match uidsOf s nodes links with
+  | none => (s, .error)
+  | some us =>
+    if AL.has s.controls name then ({ s with controls := AL.set s.controls name us }, .ok) else (s, .error)
 
 /-- `Registry.__delitem__` prologue: `RuntimeError` when the usage record is non-empty, else pop the record -/
 def inUse (s : Reg) (r : RegId) (k : Name) : Bool := !(users s r k).isEmpty
@@ -582,6 +591,7 @@ def step (v : Variant) (s : Reg) : Op → Reg × Out
   | .addCurve n t => addCurve v s n t
   | .addSource n nd p => addSource v s n nd p
   | .addControl n ns ls => addControl s n ns ls
+  | .updateControl n ns ls => updateControl s n ns ls
   | .removeNode n wc f => removeNode v s n wc f
   | .removeLink n wc f => removeLink v s n wc f
   | .removePattern n => removePattern s n
